@@ -86,7 +86,7 @@ def check_ops(model, R, ops, P):
     R.rule(P + '.PAIR', 'backward kernel is the sibling of the forward kernel (X_forward <-> X_backward, frozen exceptions)', floor=len(ops))
     R.rule(P + '.BIND', 'k-th operand of the forward kernel receives the k-th result of the backward kernel', floor=len(ops))
     R.rule(P + '.SAVED', 'backward kernel arguments are the bindings the forward kernel saw (same-named params equal; *_shape = operand.shape; forward-output role = out.data)', floor=len(ops))
-    R.rule(P + '.ACC', 'each child has exactly one in-place += accumulation guarded by its own requires_grad (and presence predicate)', floor=len(ops))
+    R.rule(P + '.ACC', 'every accumulation statement of a closure is an in-place += on <child>._grad of a child of this op (how often / under which flags it runs: COVER)', floor=len(ops))
     for op in ops:
         try:
             _check_op(model, R, op, P)
